@@ -87,7 +87,17 @@ void *malloc(size_t len)
     size_t s, avail;
 
     if (len % __WORDSIZE != 0)
-        len += (__WORDSIZE - (len % __WORDSIZE));
+    {
+        size_t pad = __WORDSIZE - (len % __WORDSIZE);
+        if (len > (size_t)-1 - pad)
+        {
+            /* The rounded size does not fit a size_t (it would wrap to a
+             * tiny chunk): the request cannot be satisfied. */
+            __allocation_counter--;
+            return 0;
+        }
+        len += pad;
+    }
 
     /*
      * Our minimum chunk size is the size of a pointer (plus the
